@@ -26,6 +26,14 @@ TrRecvQueued == /\ IsEvent("recv") /\ Ev.decision = "queued"
                    /\ (Len(queue) >= QLen) = (Ev.dropped.k # "none")
                    /\ (Ev.dropped.k # "none" => ToChange(Ev.dropped) = Head(queue))
                    /\ Recv(c)
+                   \* what the real cache still marks as seen of the dropped changeset, right after the eviction,
+                   \* is what the specification's cache does
+                   /\ (Ev.dropped.k = "full" =>
+                          LET d == ToChange(Ev.dropped)
+                              s1 == Evict(seen, IF FixS3 THEN d.a ELSE c.a, d)
+                              idx == {i \in 1..Len(s1) : s1[i].a = d.a /\ s1[i].v = d.v}
+                              left == IF idx = {} THEN {} ELSE s1[CHOOSE i \in idx : TRUE].seqs
+                          IN {Ev.still_seen[i] : i \in 1..Len(Ev.still_seen)} = CSeqs(d) \cap left)
                 /\ Ev.queue_len = Len(queue')
 TrSpawnLoop == /\ IsEvent("spawn") /\ Ev.site = "loop"
                /\ Spawn
